@@ -1,7 +1,7 @@
 #!/bin/bash
 # tools/seeded_matrix.sh [tier] [ids...] : runs every seeded change against its own property's check and
 # (unless OWN_ONLY=1) all other checks; appends machine-readable lines to seeded/matrix.log
-cd /verif || exit 2
+cd "${VERIF_HOME:-/verif}" || exit 2
 TIER="${1:-quick}"; shift
 ALL="C01 C02 C03 C04 C05 C06 C07 C08 C09 C10 C11 C12 C13 C14 C15 C16 C17 C18 C19 C20"
 DIRS="$@"; [ -z "$DIRS" ] && DIRS=$(ls -d seeded/C??-? | xargs -n1 basename)
